@@ -190,6 +190,31 @@ def unknown_name_outcome(prog: Program, name: str = 'no-such-dataset-0'):
     return raises, bool(returns), ev
 
 
+def dynamic_lookup_namespaces(prog: Program, ev) -> List[str]:
+    """modules whose attributes load_dataset looks up and whose namespace is built at import time (star imports, globals() updates): what an
+    unknown name resolves to there is not decidable from the source text"""
+    from .symeval import module_binds
+    from .values import walk_vals, Term, Const
+    out = set()
+    for e in ev.events:
+        for v in e.data.values():
+            if not hasattr(v, 'rats') and not isinstance(v, (list, tuple, dict)):
+                continue
+            vals = v if isinstance(v, (list, tuple)) else (list(v.values()) if isinstance(v, dict) else [v])
+            for x in vals:
+                try:
+                    ts = list(walk_vals(x))
+                except Exception:
+                    continue
+                for t in ts:
+                    if isinstance(t, Term) and t.head in ('getattr', 'modvars') and t.args:
+                        m = t.args[0] if t.head == 'getattr' else t.args[0]
+                        if isinstance(m, Term) and m.head == 'module' and isinstance(m.args[0], Const):
+                            if module_binds(prog, m.args[0].v, 'no-such-dataset-0') is None:
+                                out.add(m.args[0].v)
+    return sorted(out)
+
+
 def package_data_globs(prog: Program) -> Dict[str, List[str]]:
     import tomllib
     p = os.path.join(prog.root, 'pyproject.toml')
